@@ -241,7 +241,7 @@ ob("C08", "O-C08.field.ep.b4", PR + "c08_field_ep_b4", "parse_en_passant accepts
 ob("C08", "O-C08.field.castle.b5", PR + "c08_field_castle_b5", "parse_castle_rights: FEN (KQkq) and Shredder (file letters) notation decoded per reference, duplicates and the EMPTY field rejected", ["Board::parse_castle_rights"], timeout=1800, bounded="all UTF-8 strings of at most 5 bytes; any two king squares")
 for n in (3,):
     ob("C08", "O-C08.field.board.len%d" % n, PR + "c08_field_board_len%d" % n, "parse_board on every ASCII string of exactly %d bytes: accepted exactly for 8 ranks of 8 files, placement as denoted" % n, ["Board::parse_board"], timeout=3600, bounded="all ASCII strings of exactly %d bytes" % n, tier="quick")
-ob("C08X", "O-C08.orchestration.b8", PR + "c08_orchestration_b8", "from_fen with all field parsers / validators replaced by recording stubs: a board only for six fields with every stage succeeding, each field handed to its parser; a single failing stage names its field; too few / too many fields reported as such; never panics", ["Board::from_fen"], timeout=3600, bounded="all UTF-8 strings of at most 8 bytes (any number of spaces) x all 2^12 stage outcomes")
+ob("C08", "O-C08.orchestration.b8", PR + "c08_orchestration_b8", "from_fen with all field parsers / validators replaced by recording stubs: a board only for six fields with every stage succeeding, each field handed to its parser; a single failing stage names its field; too few / too many fields reported as such; never panics", ["Board::from_fen"], timeout=3600, bounded="all UTF-8 strings of at most 8 bytes (any number of spaces) x all 2^12 stage outcomes")
 ob("C08", "O-C08.fromstr", PR + "c08_fromstr_retry", "FromStr returns the plain-FEN result and retries as Shredder-FEN exactly on InvalidCastlingRights", ["Board::from_str"], timeout=900)
 
 ob("C06", "O-C06.start", "startpos", "finite case analysis: all 960 Scharnagl numbers give the Chess960 shape per colour, and all 960 x 960 start-position pairs build, denote accepted positions with derived fields by definition, and equal the Board constructors",
